@@ -44,10 +44,14 @@ def expected(seq, limit):
     return None
 
 
-def run_case(seq, limit, catching, delay, is_async):
+def run_case(seq, limit, catching, delay, is_async, prior=None):
+    """`prior`: outcome sequence of an earlier invocation of the *same* wrapper (the statement is per
+    invocation, whatever happened before)."""
     sleeps = []
     excs = []
     calls = []
+    measured = seq
+    seq = list(prior) if prior is not None else measured
 
     def outcome():
         k = len(calls)
@@ -77,6 +81,13 @@ def run_case(seq, limit, catching, delay, is_async):
         async def fn(*a, **k):
             return outcome()
         wrapped = retry(limit=limit, delay=d, catching=catching)(fn)
+        if prior is not None:
+            try:
+                asyncio.run(wrapped(1, x=2))
+            except BaseException:  # noqa
+                pass
+            seq[:] = measured
+            del sleeps[:], excs[:], calls[:], delay_log[:]
         try:
             res = ("ret", asyncio.run(wrapped(1, x=2)))
         except BaseException as e:  # noqa
@@ -85,6 +96,13 @@ def run_case(seq, limit, catching, delay, is_async):
         def fn(*a, **k):
             return outcome()
         wrapped = retry(limit=limit, delay=d, catching=catching)(fn)
+        if prior is not None:
+            try:
+                wrapped(1, x=2)
+            except BaseException:  # noqa
+                pass
+            seq[:] = measured
+            del sleeps[:], excs[:], calls[:], delay_log[:]
         try:
             res = ("ret", wrapped(1, x=2))
         except BaseException as e:  # noqa
@@ -120,11 +138,13 @@ def search():
             for catching in (Caught, (Caught,), {Caught}):
                 for delay in (None, 0, 1, 0.5, "fn"):
                     for is_async in (False, True):
-                        n += 1
-                        p = run_case(list(seq), limit, catching, delay, is_async)
-                        if p:
-                            return n, dict(limit=limit, outcomes=list(seq), catching=repr(catching), delay=repr(delay),
-                                           variant="async" if is_async else "sync", problems=p)
+                        for prior in ((None, ["caught"] * (limit + 1), ["caught", "cancel"], ["caught", "ok"]) if catching is Caught else (None,)):
+                            n += 1
+                            p = run_case(list(seq), limit, catching, delay, is_async, prior)
+                            if p:
+                                return n, dict(limit=limit, outcomes=list(seq), catching=repr(catching), delay=repr(delay),
+                                               variant="async" if is_async else "sync", problems=p,
+                                               earlier_invocation_of_the_same_wrapper=prior)
     return n, None
 
 
